@@ -158,7 +158,10 @@ def _run(ev, work, thorough):
     hl, resl = D.export_histories(work, frames="FramesLong", maxops=2, ops="OpsAppend")
     hl = [h for h in hl if len(h[0]["groups"]) >= 11]
     ev.add_tlc("DatasetExport: appends to an 11-row-group dataset (part ids reach 10)", resl, histories=len(hl))
-    hists = [h for h in hists + hl if h[-2]["kind"] == "append"]
+    hg, resg = D.export_histories(work, frames="FramesGap", maxops=3, ops="OpsAppend", partitioned="OnlyPartitioned")
+    hg = [h for h in hg if any(len(c) == 0 for r in h for c in (r.get("frame") or []))]
+    ev.add_tlc("DatasetExport: appends across an empty chunk (gap in the part ids)", resg, histories=len(hg))
+    hists = [h for h in hists + hl + hg if h[-2]["kind"] == "append"]
     ev.add_tlc("DatasetExport: write/append histories whose last append is fault-injected", res, histories=len(hists))
     jobs = [(i, h, os.path.join(work, "faults")) for i, h in enumerate(hists)]
     os.makedirs(os.path.join(work, "faults"))
